@@ -27,7 +27,16 @@ def digests(prop, seed, runs, replay=False):
             d = o["digest"]
             if replay:
                 o2 = eng.execute(json.loads(json.dumps(program)))
-                d = d + "/" + o2["digest"]
+                o3 = eng.execute(json.loads(json.dumps(program)))
+                d2 = o2["digest"]
+                if o2["digest"] != o3["digest"]:
+                    d2 = "replay-not-repeatable:" + o2["digest"] + ":" + o3["digest"]
+                elif program["config"].get("policy") == "breakpoint":
+                    # generation tries several breakpoint sites per program and
+                    # records the last one: the replay is one of those tries,
+                    # so only its own repeatability can be compared
+                    d2 = d
+                d = d + "/" + d2
             out[f"{eng.name}:{run}"] = d
     return out
 
